@@ -205,7 +205,7 @@ def floors(tier):
     cells = [('mode-route', r, o, rt) for r in G.ROUNDINGS for o in G.OVERFLOWS for rt in ('constructor', 'call', 'set_val', 'setitem')]
     cells += [('family', f) for f in ('pyint', 'pyfloat', 'str', 'npf', 'npi', 'npu', 'arrf', 'arri', 'arru', 'list', 'tuple', 'pycomplex')]
     cells += [('noncontiguous_carrier', c) for c in ('1d', '2d', 'bigfloat2d')] + [('object_array_mixed',)] + [('object_array_numpy_first', t) for t in ('float32', 'float16', 'int8', 'uint8', 'int16')]
-    cells += [('complex_real_indexed', k_) for k_ in ('array', 'scalar', 'huge')] + [('complex_into_real_typed', k_) for k_ in ('like()', 'add-out_like', 'mul-out', 'Fxp(x, like=)')] + [('complex_indexed_store', k_) for k_ in ('dtype-string', 'resize-dtype', 'real-object', 'dtype-string-raw', 'dtype-string-fxp', 'element-holder')] + [('complex_through_view',)]
+    cells += [('complex_real_indexed', k_) for k_ in ('array', 'scalar', 'huge')] + [('complex_into_real_typed', k_) for k_ in ('like()', 'add-out_like', 'mul-out', 'Fxp(x, like=)')] + [('complex_indexed_store', k_) for k_ in ('dtype-string', 'resize-dtype', 'real-object', 'dtype-string-raw', 'dtype-string-fxp', 'element-holder', 'transpose', 'list-index-copy')] + [('complex_through_view',)]
     if np.finfo(np.longdouble).nmant > 52:
         cells += [('extended_precision_containers',)]
     return cells
@@ -506,7 +506,7 @@ def run_case(case, ctx):
             ctx.floor_hit(('complex_into_real_typed', route))
         # an object made complex by its dtype string while the value is real, and a real object: a complex value written by index keeps both components,
         # a real one keeps the object complex
-        for how in ('dtype-string', 'resize-dtype', 'real-object', 'dtype-string-raw', 'dtype-string-fxp', 'element-holder'):
+        for how in ('dtype-string', 'resize-dtype', 'real-object', 'dtype-string-raw', 'dtype-string-fxp', 'element-holder', 'transpose', 'list-index-copy'):
             try:
                 rv_ = [float(v) for v in vals[:3]]
                 dts = R.dtype_fxp(s, w, nf, True)
@@ -519,6 +519,11 @@ def run_case(case, ctx):
                     xd = Fxp([1, 0, 1], dtype=dts, raw=True, rounding=r, overflow=o)
                 elif how == 'dtype-string-fxp':
                     xd = Fxp(Fxp(rv_, s, w, nf, rounding=r, overflow=o), dtype=dts, rounding=r, overflow=o)
+                elif how == 'transpose':
+                    # (independent objects whose codes have a NumPy base: the transpose, the copy made by a list index)
+                    xd = Fxp(np.array(rv_), s, w, nf, rounding=r, overflow=o).T
+                elif how == 'list-index-copy':
+                    xd = Fxp(np.array(rv_ + rv_[:1]), s, w, nf, rounding=r, overflow=o)[[0, 1, 3]]
                 else:
                     xd = Fxp(rv_, s, w, nf, rounding=r, overflow=o)
                 ref = Fxp(cs[1], s, w, nf, rounding=r, overflow=o)         # the same complex value stored by the constructor
